@@ -24,6 +24,8 @@ type c02End struct {
 	failAt      int  // Write accepts this many bytes in total, then fails (-1: never)
 	stallAt     int  // Write accepts this many bytes in total, then blocks until the connection is closed
 	stalls      bool
+	tmoAt       int // index of the read that returns its bytes together with a temporary timeout error (-1: none)
+	tmoIdle     int // number of reads that return (0, temporary timeout) before any data
 	got         []byte
 	closed      chan struct{}
 	isClosed    bool
@@ -32,7 +34,7 @@ type c02End struct {
 }
 
 func newC02End(data []byte, cuts []int, eof bool, failAt int) *c02End {
-	return &c02End{data: data, cuts: cuts, eof: eof, failAt: failAt, closed: make(chan struct{})}
+	return &c02End{data: data, cuts: cuts, eof: eof, failAt: failAt, tmoAt: -1, closed: make(chan struct{})}
 }
 
 func (c *c02End) Read(p []byte) (int, error) {
@@ -40,6 +42,12 @@ func (c *c02End) Read(p []byte) (int, error) {
 	if c.isClosed {
 		c.mu.Unlock()
 		return 0, net.ErrClosed
+	}
+	if c.tmoIdle > 0 {
+		// a read deadline expired with nothing read: the copy loop is expected to try again
+		c.tmoIdle--
+		c.mu.Unlock()
+		return 0, c02Timeout{}
 	}
 	if c.pos < len(c.data) {
 		k := len(c.data) - c.pos
@@ -52,6 +60,11 @@ func (c *c02End) Read(p []byte) (int, error) {
 		}
 		copy(p, c.data[c.pos:c.pos+k])
 		c.pos += k
+		if c.tmoAt >= 0 && c.ci-1 == c.tmoAt {
+			// the deadline expired after some bytes had arrived: data and a temporary error together
+			c.mu.Unlock()
+			return k, c02Timeout{}
+		}
 		if c.eof && c.eofWithData && c.pos == len(c.data) {
 			c.readErr = true
 			c.mu.Unlock()
@@ -69,6 +82,13 @@ func (c *c02End) Read(p []byte) (int, error) {
 	<-c.closed
 	return 0, net.ErrClosed
 }
+
+// c02Timeout is what a net.Conn returns when a read deadline expires
+type c02Timeout struct{}
+
+func (c02Timeout) Error() string   { return "i/o timeout" }
+func (c02Timeout) Timeout() bool   { return true }
+func (c02Timeout) Temporary() bool { return true }
 
 var errC02Reset = errors.New("connection reset by peer")
 
@@ -175,6 +195,13 @@ func Harness_C02_pipe() {
 	if ender == 0 || ender == 1 {
 		w := verif_Bool()
 		src.eofWithData, dst.eofWithData = w, w
+	}
+	// read deadlines firing on the source side: before any data, or together with a chunk
+	if verif_Bool() {
+		src.tmoIdle = 1
+		if len(cS) > 0 {
+			src.tmoAt = verif_IntRange(0, len(cS)-1)
+		}
 	}
 
 	b := NewBridge(ctx, &BridgeConfig{TunnelID: "tun-1", MappingID: "pm1", SourceConn: src, BandwidthLimit: limit})
